@@ -2,7 +2,7 @@
    Only statements closed by `exact`, each followed by Print Assumptions; Examples show non-vacuity. *)
 From Coq Require Import List ZArith QArith Qabs Bool.
 From PV Require Import lib.Sx lib.Str lib.Result model.Geometry model.Positioning spec.SpecGeom spec.SpecPos.
-From PV Require Import proofs.GeomPrint proofs.GeomFacts proofs.PosFacts.
+From PV Require Import proofs.GeomPrint proofs.GeomFacts proofs.PosFacts proofs.Pos12Facts.
 Import ListNotations.
 Open Scope Z_scope.
 
@@ -103,7 +103,8 @@ Theorem C13_dfxp_refuses_with_relativization_error : forall c s e,
 Proof. exact dfxp_refuses_with_relativization_error. Qed.
 Print Assumptions C13_dfxp_refuses_with_relativization_error.
 
-(* the statement is false of the code before the fix (witness: language-level origin 64px 36px, video 640x360) *)
+(* record of the pre-fix behaviour (about dfxp_transform_prefix, a definition no run ties to any code): the statement was
+   false of it (witness: language-level origin 64px 36px, video 640x360).  Not part of the claim. *)
 Theorem C13_dfxp_lang_level_px_refuted : exists c s s',
   w_rel c = true /\ dfxp_transform_prefix c s = Ok s' /\ forallb opt_all_pct (written_layouts s') = false.
 Proof. exact dfxp_lang_level_px_refuted. Qed.
@@ -114,12 +115,14 @@ Theorem C13_sami_writes_percentages : forall c s s', w_rel c = true -> sami_tran
 Proof. exact sami_writes_percentages. Qed.
 Print Assumptions C13_sami_writes_percentages.
 
-(* WebVTT: whatever the configuration, computed cue settings carry percentages only *)
+(* WebVTT: whatever the configuration, COMPUTED cue settings carry percentages only.  Raw settings read from a WebVTT file
+   (Layout.webvtt_positioning, VRaw) are passed through verbatim - C12's clause - and count as `true` here by definition *)
 Theorem C13_vtt_only_percent : forall c lo out, vtt_convert_positioning c lo = Ok out -> vtt_out_pct out = true.
 Proof. exact vtt_only_percent. Qed.
 Print Assumptions C13_vtt_only_percent.
 
-(* ---- the traversal of each writer, level by level, and refusal as an equivalence ----------------------------------- *)
+(* ---- the traversal of each writer, level by level (these two restate the model's definition as Forall2: definitional,
+        used by the fit theorem below), and refusal as an equivalence ------------------------------------------------- *)
 (* DFXPWriter (repaired): set level untouched; language level as_percentage_of only; caption and node level through
    _relativize_and_fit_to_screen; structure and node kinds kept *)
 Theorem C13_dfxp_transform_levels : forall c s s', dfxp_transform c s = Ok s' ->
@@ -148,6 +151,23 @@ Theorem C13_sami_refused_iff : forall c s, w_rel c = true ->
   ((exists e, sami_transform c s = Err e) <-> existsb (opt_needs c) (ns_layout s :: written_layouts s) = true).
 Proof. exact sami_refused_iff. Qed.
 Print Assumptions C13_sami_refused_iff.
+
+(* the fit clause at WRITER level (composition of the traversal with C13_fit_safe): with relativization and fit on, every
+   caption- and node-level layout of the transformed set whose origin lies in the safe area has an extent in percent,
+   right edge <= 90, bottom edge <= 95 *)
+Theorem C13_dfxp_fit_levels : forall c s s', w_rel c = true -> w_fit c = true -> dfxp_transform c s = Ok s' ->
+  Forall opt_fitted (cap_node_layouts s').
+Proof. exact dfxp_fit_levels. Qed.
+Print Assumptions C13_dfxp_fit_levels.
+
+(* WebVTT with fit on: a percentage layout with its origin in the safe area gives position + size <= 90 - right padding *)
+Theorem C13_vtt_fit_right_edge : forall c l org, layout_truthy l = true -> (l_webvtt l = None \/ l_webvtt l = Some []) ->
+  all_pct l = true -> w_fit c = true -> l_origin l = Some org -> in_safe_area org = true ->
+  exists s ps ss, vtt_convert_positioning c (Some l) = Ok (VSet s)
+    /\ vs_position s = Some ps /\ vs_size s = Some ss /\ s_unit ps = PCT /\ s_unit ss = PCT
+    /\ (s_val ps + s_val ss <= 90 - pad_of pd_end l)%Q.
+Proof. exact vtt_fit_right_edge. Qed.
+Print Assumptions C13_vtt_fit_right_edge.
 
 (* after `fix: fit_to_screen gave a negative extent ...`: a fitted extent is never negative, whatever the origin *)
 Theorem C13_fit_extent_never_negative : forall l r e', layout_fit l = Ok r -> l_origin l <> None -> l_extent r = Some e' ->
@@ -182,4 +202,26 @@ Example C13_ex_fit_outside_safe_area :
   let s v := mkSize v PCT in
   layout_fit (mkLayout (Some (mkPoint (s (95 # 1)) (s (10 # 1)))) None None None None)
   = Ok (mkLayout (Some (mkPoint (s (95 # 1)) (s (10 # 1)))) (Some (mkStretch (s (0 # 1)) (s (85 # 1)))) None None None).
+Proof. vm_compute. reflexivity. Qed.
+
+(* instances of the hypotheses of the refusal / fit theorems *)
+Example C13_ex_refusal :
+  let l := mkLayout (Some (mkPoint (mkSize (64 # 1) PX) (mkSize (36 # 1) PX))) None None None None in
+  let c := mkCfg true true None (Some (360 # 1)) in
+  relativize_and_fit true true None (Some (360 # 1)) l = Err ERelativization
+  /\ needs_missing None (Some (360 # 1)) l = true
+  /\ dfxp_transform c (mkNset None [mkNlang None [mkNcap (Some l) [mkNode 1 None]]]) = Err ERelativization
+  /\ existsb (opt_needs c) (written_layouts (mkNset None [mkNlang None [mkNcap (Some l) [mkNode 1 None]]])) = true.
+Proof. vm_compute. repeat split. Qed.
+Example C13_ex_fit_missing_extent :
+  let s v := mkSize v PCT in
+  let l := mkLayout (Some (mkPoint (s (10 # 1)) (s (20 # 1)))) None None None None in
+  in_safe_area (mkPoint (s (10 # 1)) (s (20 # 1))) = true
+  /\ layout_fit l = Ok (mkLayout (l_origin l) (Some (mkStretch (s (80 # 1)) (s (75 # 1)))) None None None).
+Proof. vm_compute. split; reflexivity. Qed.
+Example C13_ex_vtt_fit :
+  let s v := mkSize v PCT in
+  vtt_convert_positioning (mkCfg true true None None)
+    (Some (mkLayout (Some (mkPoint (s (35 # 1)) (s (25 # 1)))) (Some (mkStretch (s (80 # 1)) (s (60 # 1)))) None None None))
+  = Ok (VSet (mkVs (Some HStart) (Some (s (35 # 1))) (Some (s (25 # 1))) (Some (s (55 # 1))))).
 Proof. vm_compute. reflexivity. Qed.
